@@ -11,7 +11,7 @@ from ref import p2p as RP
 from ref import wire as RW
 from sim import conv, gen
 from sim.kernel import Engine, EventQueue, StopRun
-from sim.net import Pipe, ReaderThread, Recorder, SimRaw, SimStream
+from sim.net import BufferedRecorder, Pipe, ReaderThread, Recorder, SimRaw, SimStream
 from sim import seams
 
 STYLES = ('buffered', 'direct', 'tryparse')
@@ -579,8 +579,9 @@ class P2PNet(Engine):
         if c.style == 'buffered':
             raw = SimRaw(c.pipe, th, on_block)
             inner = io.BufferedReader(raw, buffer_size=max(1, c.bufsize))
-        else:
-            inner = SimStream(c.pipe, th, on_block)
+            c.rec = BufferedRecorder(inner)
+            return
+        inner = SimStream(c.pipe, th, on_block)
         c.rec = Recorder(inner)
 
     def _record(self, c, kind, start, end, obj=None, exc=None):
@@ -797,6 +798,14 @@ class P2PNet(Engine):
                               type=t, **det)
                 else:
                     ctx.probe('non-canonical-payload')
+            if rk in (RP.REJECT, RP.UNSPEC) and g['kind'] == RP.REJECT and r['start'] <= g['end'] < r['end']:
+                # the property pins the position after a MESSAGE (exactly the frame) and forbids reading beyond
+                # a frame; how much of a refused frame the parser has taken when it raises is left open.  The
+                # library under test takes less than the model: where it would resume is its own choice, and
+                # nothing after this point can be predicted for this reader.
+                ctx.probe('refused-frame-left-partly-unread')
+                stopped_unspec = True
+                break
             if g['end'] != r['end']:
                 ctx.check(False, 'C18.pos', 'pipe %d outcome %d (%s%s): parser consumed up to %d, reference frame ends at %d'
                           % (c.cid, k, rk, '/' + r['why'] if r.get('why') else '', g['end'], r['end']),
